@@ -28,6 +28,17 @@ ASSUMPTIONS = [
 ]
 
 
+@st.composite
+def special_rows(draw, crit, exactish):
+    """Rows for the weight <= 0 / NaN splice: half of them carry NaN / +-inf quantities (which must not leak in)."""
+    row = draw(gen.rows(crit, exactish))
+    if draw(st.booleans()):
+        for c in gen.NUMCOLS:
+            if draw(st.booleans()):
+                row[c] = draw(st.sampled_from(gen.SPECIAL))
+    return row
+
+
 def strategy(tier):
     thorough = tier == "thorough"
     opts = gen.TreeOpts(max_depth=4 if thorough else 3, count_transforms=True, cat_cols=("s", "s", "b"))
@@ -41,7 +52,7 @@ def strategy(tier):
         crit = gen.critical_values(spec)
         extra = draw(
             st.lists(
-                st.tuples(st.integers(0, n), gen.rows(crit, exactish), st.sampled_from((0.0, -1.0, -0.5, float("nan"), -0.0))),
+                st.tuples(st.integers(0, n), special_rows(crit, exactish), st.sampled_from((0.0, 0.0, -1.0, -0.5, float("nan"), -0.0))),
                 max_size=3,
             )
         )
